@@ -11,6 +11,7 @@
      val  ::= i<int> | f<q> (the float q/4) | z (-0.0) | n | s<hex> | b0 | b1 | a<count>.<val>... | m<count>.<key>.<val>...
      key  ::= i<int> | f<q> | z | s<hex>                                        tokens separated by '.'
    out :  <id> C:<name>=<0|1>,... | <obs> | <obs> ...     obs ::= (ok=<Inspect rendering> | err) <name>=<exact rendering or -> ...
+          (a function prints as <fn>; a binding holding a function as <fn>=><exact rendering of what calling it returns>)
           (the exact rendering writes every float with a fraction: 1.0, -0.0) *)
 let tokens s = String.split_on_char '.' s
 let tail s = String.sub s 1 (String.length s - 1)
@@ -44,7 +45,8 @@ let rec parse_val (ts : string list) : cval * string list =
 let parse_cval (s : string) : cval = fst (parse_val (tokens s))
 let name_of s = List.init (String.length s) (fun i -> n_of_int (Char.code s.[i]))
 (* expr ::= <val> | N:<y> | S:<y>:<l>:<r> | W:<y> | X:<y>:<key> | R:<y> | P:<y>:<val> | C:<y>:<key>:<val>
-          | Q:<y>:<val> (y+val) | T:<y>:<l>:<r>:<val> (y[l:r]+val) | M:<n>:<val> (func(){n=val;func(){n}}()) | G:<g> (g()) *)
+          | Q:<y>:<val> (y+val) | T:<y>:<l>:<r>:<val> (y[l:r]+val) | M:<id>:<n>:<val> (func(){n=val;func(){n}}()) | K:<id>:<val> (mk(val), mk=func(mkn){func(){mkn}})
+          | G:<g> (g())                 id: unique per occurrence *)
 let parse_expr (s : string) : expr =
   if String.length s > 1 && s.[1] = ':' then
     (match String.split_on_char ':' s with
@@ -57,7 +59,8 @@ let parse_expr (s : string) : expr =
      | ["C"; y; k; v] -> ECallSet (name_of y, parse_key_tok k, parse_cval v)
      | ["Q"; y; v] -> EPlus (EName (name_of y), parse_cval v)
      | ["T"; y; l; r; v] -> EPlus (ESlice (name_of y, z_of_string l, z_of_string r), parse_cval v)
-     | ["M"; n; v] -> EMkClo (name_of n, parse_cval v)
+     | ["M"; id; n; v] -> EMkClo (nat_of_int (int_of_string id), name_of n, parse_cval v)
+     | ["K"; id; v] -> EMaker (nat_of_int (int_of_string id), parse_cval v)
      | ["G"; g] -> ECallClo (name_of g)
      | _ -> failwith ("bad expr " ^ s))
   else ELit (parse_cval s)
@@ -104,7 +107,7 @@ let rec render exact (v : cval) : string =
   | XBool b -> string_of_bool b
   | XArr l -> "[" ^ String.concat "," (List.map (render exact) l) ^ "]"
   | XMap l -> "{" ^ String.concat "," (List.map (fun (k, x) -> render_key exact k ^ ":" ^ render exact x) l) ^ "}"
-  | XCloLocal (_, _) | XCloOuter _ -> "<fn>"
+  | XCloLocal (_, _, _, _) | XCloOuter (_, _, _) -> "<fn>"
 
 let () = iter_lines (fun line ->
   match split_on ' ' line with
@@ -123,7 +126,11 @@ let () = iter_lines (fun line ->
         | Err -> "err"
         | Dom -> dom := true; "dom"
         | Stuck -> "STUCK") in
-      let bs = List.map (fun n -> n ^ "=" ^ (match root_value e' (name_of n) with Some v -> render true v | None -> "-")) names in
+      let bs = List.map (fun n -> n ^ "=" ^ (match root_value e' (name_of n) with
+        | Some (XCloLocal (_, _, _, w)) -> "<fn>=>" ^ render true w
+        | Some (XCloOuter (_, _, m)) -> "<fn>=>" ^ (match root_value e' m with Some w -> render true w | None -> "?")
+        | Some v -> render true v
+        | None -> "-")) names in
       String.concat " " (head :: bs)) (String.split_on_char ';' evs) in
     if !dom then print_endline (id ^ " SKIP dom") else print_endline (id ^ " " ^ String.concat " | " (hdr :: outs))
   | _ -> ())
